@@ -17,7 +17,7 @@ Trusted(snap, pre, opts, p) ==
   /\ pre[p].size = snap[p].size /\ pre[p].mtime = snap[p].mtime
 
 \* content attributes of an entry (mode/mtime of symlinks are not compared: lchmod does not exist)
-Same(a, b) == /\ a.t = b.t /\ a.size = b.size /\ a.sha = b.sha /\ a.target = b.target
+Same(a, b) == /\ a.t = b.t /\ a.size = b.size /\ a.sha = b.sha /\ a.target = b.target /\ a.hl = b.hl
               /\ (a.t = "symlink" \/ (a.mode = b.mode /\ a.mtime = b.mtime))
 
 Exact(snap, pre, post, opts) ==
